@@ -21,6 +21,7 @@ import Proofs.GoTieSshRsa
 import Proofs.GoTieScryptCtor
 import Proofs.GoTieMarshal
 import Proofs.GoTieSmall
+import Proofs.GoTieAead
 namespace AgeModel
 namespace Tie.C05
 open SpecConsts
@@ -267,6 +268,18 @@ theorem sshFingerprint_tie {π : Type} (P : Prims) (wire : π → Bytes)
     (Enc : Bytes → Go.M Bytes) (hEnc : ∀ b, Enc b = .ok (B64.encRaw b)) (k : π) :
     Extracted.agessh_sshFingerprint Sum Mar Enc k = .ok (sshTag P (wire k)) :=
   GoTie.sshFingerprint_tie P wire Sum hSum hLen Mar hMar Enc hEnc k
+
+/-! The body of every native and SSH-Ed25519 stanza: `aeadEncrypt` (package age and agessh),
+translated with ChaCha20-Poly1305 abstract — the file key sealed under the wrapping key with twelve
+zero bytes as nonce and no additional data, as the format prescribes. -/
+
+theorem aeadEncrypt_tie {α : Type} {P : Prims} (E : GoTie.WrapAeadEnv α P) (k pt : Bytes) (hk : k.length = 32) :
+    Extracted.age_aeadEncrypt E.New E.seal_ k pt = .ok (P.wrapSeal k pt, none) :=
+  GoTie.aeadEncrypt_tie E k pt hk
+
+theorem ssh_aeadEncrypt_tie {α : Type} {P : Prims} (E : GoTie.WrapAeadEnv α P) (k pt : Bytes) (hk : k.length = 32) :
+    Extracted.agessh_aeadEncrypt E.New E.seal_ k pt = .ok (P.wrapSeal k pt, none) :=
+  GoTie.ssh_aeadEncrypt_tie E k pt hk
 
 end Tie.C05
 end AgeModel
